@@ -29,6 +29,14 @@ CLAIMED = {
             "Theorems C12_at_most_once, C12_per_apid_independent, C12_group_semantics, C12_only_complete hold for every finite history over any APIDs. The automaton determines outputs and warnings uniquely, so model = implementation on a history is the property on that history.",
             "Trusted: Coq kernel+VM; framing of the concatenated valid packets (C02). Genuine defect F7 found by this check and repaired by a fix: commit.",
             "DESIGN.md section 4 C12, 8.2"),
+    "C19": ("Coq proof (row selection = spec for every n; each packet once; index in range iff 0 <= i < n) + constants regenerated from cli.py each run + kernel-evaluated correspondence through click's CliRunner for n = 0..25, i = 0..n+1",
+            "Theorems C19_rows, C19_each_once, C19_select hold for every n and index. Termination on any file is C10. partial: rich/click rendering is glue reached only by the correspondence (rows parsed back from the rendered table).",
+            "Trusted: Coq kernel+VM; table parsing of rich output; MAX_ROWS/HEAD_ROWS re-extracted by ast each run (Gen/TablesOk_C19). Genuine defects F10, F11 found by this check and repaired by fix: commits.",
+            "DESIGN.md section 4 C19"),
+    "C20": ("Coq proof (construction default `is not None`, reduce/rebuild round trip for values and packets, method-resolution table by computation) + class table regenerated from the live classes each run + kernel-evaluated correspondence over values x raws incl. falsy, copy/deepcopy/pickle 2-5",
+            "Theorems C20_raw_default, C20_raw_given, C20_copy_roundtrip, C20_packet_roundtrip, C20_only_new_and_bool_repr, C20_builtin_base. partial: semantics of the built-ins and of pickle are CPython's; they are observed (== / hash / order / format / arithmetic against the plain built-in) in the correspondence, not proved.",
+            "Trusted: Coq kernel+VM; CPython built-ins and pickle; class table extracted by introspection each run (Gen/TablesOk_C20).",
+            "DESIGN.md section 4 C20"),
 }
 PENDING_REASON = "check not built yet in this round; design in DESIGN.md section 4 (no technique switch planned)"
 
